@@ -7,6 +7,7 @@ import Driver.OpsSess
 import Driver.OpsBasic
 import Driver.OpsCmd
 import Driver.OpsGuard
+import Driver.OpsGeom
 open Driver
 
 def opGrid (args : List String) : String :=
@@ -49,6 +50,7 @@ def dispatch (line : String) : String :=
   | "basic" :: r => opBasic r
   | "cmd" :: r => opCmd r
   | "guard" :: r => opGuard r
+  | "geom" :: r => opGeom r
   | _ => "bad-op"
 
 partial def loop (h : IO.FS.Stream) (out : IO.FS.Stream) : IO Unit := do
